@@ -137,6 +137,20 @@ class C08:
                 dotend += 1
             variants.append(variant("spelling:" + kind, **kw))
         variants.append(variant("relocated", path=os.path.join(Bp, name)))
+        # same bytes, other metadata: modification times and permission bits are not part of the payload
+        Cp = os.path.join(scratch, "C", "stat")
+        if tree["single"]:
+            materialise(Cp, [[name, tree["files"][0][1], tree["files"][0][2]]])
+        else:
+            materialise(os.path.join(Cp, name), tree["files"], tree["dirs"])
+        for dp, dns, fns in os.walk(Cp):
+            for fn in fns:
+                fp = os.path.join(dp, fn)
+                os.utime(fp, (rng.randrange(10 ** 9), rng.randrange(10 ** 9)))
+                os.chmod(fp, rng.choice([0o600, 0o640, 0o755, 0o444]))
+            for dn in dns:
+                os.utime(os.path.join(dp, dn), (5, 5))
+        variants.append(variant("relocated-other-mtime-and-mode", path=os.path.join(Cp, name)))
         variants.append(variant("enum:reverse", enum="reverse"))
         for k in range(2):
             variants.append(variant("enum:shuffle", enum="shuffle", enum_seed=rng.randrange(1000)))
